@@ -61,6 +61,8 @@ def build_mans(node, spec, epoch):
         d = epoch + td(node, m["off_s"])
         if m["type"] == "imp":
             out.append(man.ImpulsiveMan(d, m["dv"], frame=m.get("frame"), comment=m.get("comment")))
+        elif m["type"] == "kep":
+            out.append(man.KeplerianImpulsiveMan(d, da=m.get("da", 0), di=m.get("di", 0), dOmega=m.get("dOmega", 0)))
         else:
             out.append(man.ContinuousMan(d, td(node, m["dur_s"]), dv=m["dv"], frame=m.get("frame"), comment=m.get("comment")))
     return out
